@@ -198,6 +198,9 @@ class LibMixin:
         # analyses depend on ends in an analysis limit there, never in a silent verdict.
         if n == "textwrap" and attr in ("dedent", "indent"):
             return F(f"textwrap.{attr}")
+        if n == "keyword" and attr in ("kwlist", "softkwlist"):
+            import keyword as _kw
+            return ListV(list(getattr(_kw, attr)))
         if n == "json" and attr in ("dumps", "loads"):
             return F(f"json.{attr}")
         if n == "sys" and attr == "float_info":
